@@ -38,3 +38,4 @@ open BeffVerif.C02
 #print axioms BeffVerif.C16R.definition_refs_resolve
 #print axioms BeffVerif.C16R.returned_refs_resolve
 #print axioms BeffVerif.Consts.mergeable_keys_current
+#print axioms BeffVerif.C16R.schema_flat_no_refs
